@@ -585,7 +585,7 @@ func vkRun(o *vkOut, sc vkScenario, choose func(step int, el []int) int) (lines 
 		}
 		o.stats["monitor_failures"]++
 	}
-	overlap := false
+	overlap, flagged := false, false
 	for step := 0; step < 64; step++ {
 		el := w.eligible()
 		if len(el) == 0 {
@@ -619,6 +619,29 @@ func vkRun(o *vkOut, sc vkScenario, choose func(step int, el []int) int) (lines 
 			o.stats["watcher_closes"]++
 		}
 		emit(fmt.Sprintf("k go %s :: %s", name, snap), "ok")
+		// direct monitor: a Close (of the scope or of the provider) that has returned means the disposal
+		// is over - nobody may still be inside a Close method on behalf of the scope's own Close
+		w.mu.Lock()
+		inFlight := ""
+		if w.watcher.parked != nil {
+			inFlight = "the cancellation watcher is in " + w.watcher.parked.point
+		}
+		for _, th := range w.byID {
+			if (th.kind == "close" || th.kind == "pclose") && th.parked != nil {
+				inFlight = fmt.Sprintf("thread %d (%s) is in %s", th.id, th.kind, th.parked.point)
+			}
+		}
+		returned := ""
+		for _, th := range w.byID {
+			if (th.kind == "close" || th.kind == "pclose") && th.done && th.res == "nil" {
+				returned = fmt.Sprintf("thread %d (%s)", th.id, th.kind)
+			}
+		}
+		w.mu.Unlock()
+		if inFlight != "" && returned != "" && !flagged {
+			flagged = true
+			report("C09,C12,C13,C10", "Close returned ("+returned+") while the disposal of the scope is still in flight: "+inFlight)
+		}
 		running := 0
 		for _, f := range strings.Fields(snap) {
 			if !strings.Contains(f, "=new") && !strings.Contains(f, "=done") && !strings.HasPrefix(f, "w=") {
